@@ -44,8 +44,8 @@ CLAIMED = {
                 'purification, entangled subspaces, minimizers with callbacks, convex-hull and boundary solvers on re-used objects) is evaluated at >=2 positions of one run while the '
                 'simulator owns all process entropy (OS entropy stream, numpy/python/torch global generators, wall clock, memo tables, solver failures, forced discrete draws) and perturbs '
                 'it in between; oracles: bit-identical outcome per (call, seed), pristine-process digest under another hash seed and entropy stream, membership predicates of the advertised '
-                'set, retry-after-fault equality, caller-overwritten results, same-seed sibling calls.',
-        'note': 'trusted: numpy bit generators, membership predicates in models/membership.py; BLAS pinned to 1 thread; integer seeds only; multi-process branches (check_UD num_worker>1) are not simulated',
+                'set, retry-after-fault equality, caller-overwritten results, same-seed sibling calls; two seeded calls running on two caller threads with scheduler-chosen hand-overs must each reproduce their first evaluation.',
+        'note': 'trusted: numpy bit generators, membership predicates in models/membership.py; BLAS pinned to 1 thread; integer seeds only; multi-process branches (check_UD num_worker>1) are not simulated; threads: light (non-solver) seeded calls only, one harness-owned object is never used by two threads',
         'technique': 'deterministic simulation with fault injection: sim-owned entropy/clock seams + seeded history scheduler + same-seed-same-bits, pristine-process and membership oracles',
     },
     'C11': {
